@@ -410,7 +410,7 @@ def replay_cascade(fl, FA, vals=None, seed=0, budget=300, **kw):
     cases, seen = 0, set()
     for it in range(budget):
         lp, lr = rng.random() < 0.5, rng.random() < 0.5
-        dflt = rng.choice([float("nan"), 4.0, 20.0])
+        dflt = rng.choice([float("nan"), 4.0, 20.0, 0.0])
         L = rng.randrange(1, 7)
         seq = [rng.choice(pool) for _ in range(L)]
         # a split of the sequence into successive calls
@@ -420,6 +420,8 @@ def replay_cascade(fl, FA, vals=None, seed=0, budget=300, **kw):
         ov = fl.OutputVariable("o", minimum=0.0, maximum=10.0, lock_range=lr, lock_previous=lp, default_value=dflt, defuzzifier=dz, terms=[fl.Triangle("t", 0, 5, 10)])
         s = float("nan")
         exp_all, got_all = [], []
+        # half of the histories run the variable inside an engine: "the previous call" is then the previous Engine.process()
+        eng = fl.Engine("e", input_variables=[], output_variables=[ov], rule_blocks=[]) if rng.random() < 0.5 else None
         for part in parts:
             if rng.random() < 0.1:
                 ov.clear(); s = float("nan")
@@ -438,7 +440,10 @@ def replay_cascade(fl, FA, vals=None, seed=0, budget=300, **kw):
             held = s
             # a single value arrives as a 1-element array, a 0-d array or a numpy.float64 (what weighted defuzzifiers return for floats)
             dz.next = np.array(part, dtype=float) if len(part) > 1 or rng.random() < 0.4 else rng.choice([np.array(part[0], dtype=float), np.float64(part[0])])
-            ov.defuzzify()
+            if eng is not None:
+                eng.process()
+            else:
+                ov.defuzzify()
             exp = []
             for dv in part:
                 s = _step(s, dv, lp, dflt, lr, 0.0, 10.0)
@@ -450,7 +455,7 @@ def replay_cascade(fl, FA, vals=None, seed=0, budget=300, **kw):
                 j = lambda xs: [None if x != x else x for x in xs]
                 return {"failed": True, "expected": {"value": j(exp), "previous_value": None if held != held else held}, "cases": cases,
                         "observed": {"value": j(got), "previous_value": None if ov.previous_value != ov.previous_value else float(ov.previous_value)},
-                        "call": f"OutputVariable(range=[0,10], lock_range={lr}, lock_previous={lp}, default={dflt}) defuzzified values {j(seq)} split as {[j(p_) for p_ in parts]}; failing at part {j(part)}"}
+                        "call": ("Engine.process(): " if eng is not None else "") + f"OutputVariable(range=[0,10], lock_range={lr}, lock_previous={lp}, default={dflt}) defuzzified values {j(seq)} split as {[j(p_) for p_ in parts]}; failing at part {j(part)}"}
         # a disabled variable is left untouched
         ov.enabled = False
         before = np.array(ov.value, dtype=float).copy()
